@@ -16,6 +16,7 @@ import (
 	"math/big"
 	"net/http/httptest"
 	"os"
+	"runtime/debug"
 	"sort"
 	"strconv"
 	"strings"
@@ -308,7 +309,11 @@ func (h *verifWHist) newEvent(b *verifWBlock, tx *verifWTx, contract int, class 
 			sender = make([]byte, 32)
 		default:
 			sender = append([]byte{}, sender...)
-			sender[r.below(32)] ^= 1 << uint(r.below(8))
+			pos := r.below(32)
+			if h.fam == "fields" && r.chance(1, 2) {
+				pos = []int{0, 31}[r.below(2)] // a sender that differs from the token bridge in its first / last byte only
+			}
+			sender[pos] ^= 1 << uint(r.below(8))
 		}
 		if r.chance(1, 3) {
 			class = "attest" // a foreign attestation-shaped event: the metadata call happens before the sender filter
@@ -695,6 +700,9 @@ func (h *verifWHist) stepPoll(ps *verifWPollScript) {
 	if fmt.Sprint(want) != fmt.Sprint(buids) {
 		h.flag("C09", "batch-differs", fmt.Sprintf("%s: batch %v, well-formed events of stream[%d..%d) are %v", hist, buids, fromPrev, newFrom, want))
 	}
+	if h.fam == "fields" {
+		h.fieldsBatchMon(hist, fromPrev, newFrom, buids)
+	}
 	for _, u := range buids {
 		h.fetched[u]++
 		if h.fetched[u] > 1 {
@@ -736,7 +744,9 @@ func (h *verifWHist) stepDeliver() {
 		}
 	}
 	for _, u := range h.inflightU {
-		h.pend[u] = true
+		if h.events[u] != nil { // (a batch entry that matches no generated event has been flagged by the poll's monitor)
+			h.pend[u] = true
+		}
 	}
 	h.inflight, h.inflightU = nil, nil
 	h.steps = append(h.steps, map[string]interface{}{"op": "deliver", "res": res, "enabled": h.w.blockPollerEnabled.Load()})
@@ -1286,7 +1296,7 @@ func TestVerifWatcher(t *testing.T) {
 			func() {
 				defer func() {
 					if p := recover(); p != nil {
-						row = map[string]interface{}{"k": "hist", "id": i, "harness_panic": fmt.Sprint(p)}
+						row = map[string]interface{}{"k": "hist", "id": i, "harness_panic": fmt.Sprint(p) + "\n" + string(debug.Stack())}
 					}
 				}()
 				row = h.run()
